@@ -18,3 +18,15 @@ Proof. vm_compute. reflexivity. Qed.
 
 Lemma tables_usable : forallb table_ok ts24501_tables = true.
 Proof. vm_compute. reflexivity. Qed.
+
+(* 40 of the 44 message types agree with their table row by row; the other four are REGISTRATION REQUEST (deviation 52,
+   uncertain 8-/60), REGISTRATION ACCEPT (uncertain D-/60), PDU SESSION MODIFICATION REQUEST (deviation 7A) and
+   PDU SESSION MODIFICATION COMMAND (uncertain 7F/75) *)
+Lemma strict_pairs_count :
+  List.length dispatched_pairs = 44%nat /\ List.length strict_pairs = 40%nat /\
+  map (fun p => let '(e, ty, _, _) := p in (e, ty)) (filter (fun p => let '(_, _, d, t) := p in negb (layout_strict d t)) dispatched_pairs)
+  = [(0x7E, 0x41); (0x7E, 0x42); (0x2E, 0xC9); (0x2E, 0xCB)].
+Proof. repeat split; vm_compute; reflexivity. Qed.
+
+Lemma strict_pairs_ok e ty d t : In (e, ty, d, t) strict_pairs -> layout_strict d t = true /\ desc_pair_ok d = true.
+Proof. unfold strict_pairs. intro H. apply filter_In in H as [_ H]. now apply andb_true_iff in H. Qed.
